@@ -3,7 +3,8 @@ CHECKS['C18'] = dict(
     text='Structural proof of the construction discipline: every construction site of the six validated newtypes '
          '(derive expansions, CLI and const items included) is the guarded constructor or an in-range constant; the guard is '
          'the closed documented range on the same value; TryFrom/FromStr/Deserialize all delegate to it; reads return the field. '
-         'Complete for the stated structural clauses; float parsing itself is std/serde.',
+         'Complete for the stated structural clauses; float parsing itself is std/serde.'
+         ' R18.7: the text route is interpreted on constant witness spellings of the f64 grammar (sign, bare point, exponent, leading zeros): a spelling answered Err before parsing is a route disagreement.',
     note=ASSUME + '; serde try_from attribute semantics are checked on the expansion, str::parse/serde_json number parsing trusted',
     technique='who-may-construct query + delegation-chain check by abstract interpretation of MIR')
 CHECKS['C07'] = dict(
@@ -11,7 +12,8 @@ CHECKS['C07'] = dict(
          'is enumerated and discharged by abstract interpretation over all skeleton worlds (15 policies x 16 validity patterns x free '
          'conditions; RefCell borrow state and Ok/Err typestate tracked exactly), by the key tables of Params::new, by an upper-bound '
          'argument for the NaiveTime operands, by loop classification or a reviewed entry; an undischarged site is a violation. '
-         'Panics/hangs that need numeric reasoning (inf/NaN) are not decided.',
+         'Panics/hangs that need numeric reasoning (inf/NaN) are not decided.'
+         ' Recursion (R7.4): a self-recursive call needs a ranking argument on the guard that dominates it, bounded over the minute-offset domain.',
     note=ASSUME + '; inputs finite; Params keeps the keys Params::new inserts; chrono date arithmetic in range for 1600..2399',
     technique='panic-site inventory over the call graph + path-sensitive abstract interpretation (typestate) of MIR')
 CHECKS['C08'] = dict(
@@ -33,7 +35,7 @@ CHECKS['C05'] = dict(
     text='Decides: exactly seven entries (key sets on every path, all outcomes), Fajr/Asr/Isha on the correct side of the very Dhuhr term '
          'with offsets in [0,12] h (interval domain), nothing flagged extreme and only conventional/interval values under policy None '
          'in every skeleton world. Strict order between values of different solvers is numeric: not decided.'
-         ' Includes the seam hygiene R1.2, the clock-time conversion rules R11.4/R11.7 (wraps, bounded operands) and the interval definitions R12.2.',
+         ' Includes the seam hygiene R1.2, the clock-time conversion rules R11.4/R11.7 (wraps, bounded operands), the interval definitions R12.2 and the existence guard R6.1.',
     note=ASSUME + '; acos in [0, pi]',
     technique='key-set analysis + interval abstract domain on reconstructed terms + skeleton worlds')
 CHECKS['C06'] = dict(
@@ -70,7 +72,8 @@ CHECKS['C15'] = dict(
          'params/location and their own partition element and send that result exactly once, work list = unmodified partition(n) with '
          'the tested n, collector only appends into the returned map. With C14 this gives equality with the sequential map under every '
          'interleaving.'
-         ' R15.5 inventories the failure sites of the range API (an argument that must be positive is evaluated for the empty range); includes C14\'s R14.1/R14.3.',
+         ' R15.5 inventories the failure sites of the range API (an argument that must be positive is evaluated for the empty range); includes C14\'s R14.1/R14.3.'
+         ' R15.6 block independence: what the sequential API stores under a date mentions no loop-carried state besides the date.',
     note=ASSUME + '; mpsc channel closure and thread::scope join semantics; C14',
     technique='move/drop typestate on per-path event traces from abstract interpretation + call/argument identity checks')
 CHECKS['C16'] = dict(
@@ -78,7 +81,8 @@ CHECKS['C16'] = dict(
          'constants, east/west antisymmetry (parity domain) and sign convention, rotation label = sign of the same field, Display prints '
          '|degrees| and the label. The 1e-6 degree agreement is numeric: not decided.'
          ' R16.6: a remainder/wrap applied to the longitude difference has a period that is a multiple of 360 deg.'
-         ' R16.1 also requires the bearing to be atan2 itself (a negated atan2 has the half-open image on the wrong side).',
+         ' R16.1 also requires the bearing to be atan2 itself (a negated atan2 has the half-open image on the wrong side).'
+         ' R16.7 compares the atan2 arguments with the great-circle formula as polynomials over the sines/cosines and demands an asymmetric north/south mirror; R16.8 the label is not cut by a forwarded precision.',
     note=ASSUME + '; atan2 image (-pi, pi]',
     technique='interval + parity abstract domains and dependence on the reconstructed bearing term')
 CHECKS['C19'] = dict(
@@ -87,7 +91,8 @@ CHECKS['C19'] = dict(
          'serialised/listed value is the library result of the one ParamsConfig, -p file is that same ParamsConfig. '
          'JSON bytes, exit codes, terminal text are clap/serde/std semantics: not decided.'
          ' Includes the construction discipline of the validated types (R18.1-R18.5), a premise of the rejection clause.'
-         ' Also includes C17\'s conversion/printing rules (the listing prints the Hijri date of every day).',
+         ' Also includes C17\'s conversion/printing rules (the listing prints the Hijri date of every day).'
+         ' R19.8: no hand-written rejection on the Deserialize route that the command line does not share.',
     note=ASSUME + '; clap derive uses the field type\'s FromStr (C18); serde derive symmetry',
     technique='field-type + value-flow (wiring) analysis by abstract interpretation of the bin crate\'s MIR')
 CHECKS['C02'] = dict(
@@ -133,7 +138,8 @@ CHECKS['C09'] = dict(
          'earlier date is probed before the later one at each distance and a hit ends the search (per-path probe traces), candidates are '
          'computed at the request\'s coordinates with date and Julian Day stepped together, after a hit Fajr and Isha are reported, the '
          'values written are the candidate\'s same-key entries (all six / only the invalid Fajr-Isha), flagged. Equality to the second is '
-         'numeric: not decided.',
+         'numeric: not decided.'
+         ' A candidate chosen by a condition is judged per case; includes the Julian-Day rule (R9.6): the search counts Julian Days.',
     note=ASSUME + '; |lat| <= 64 and angles <= 20 deg => twilight-free season within +/-78 days of the solstice',
     technique='interval domain on the loop bound + per-path probe-order traces + skeleton worlds with same-key value identity')
 for _p in []:
